@@ -56,6 +56,27 @@ Definition prepare (a : action) (in_gtx : bool) (xid : bytes) (fs : list field) 
     end
   else ([ETry (a_name a) 0], true).
 
+(* several prepares with ONE context (one global transaction): the same action again or different
+   actions, each with its own parameters and its own reply from the coordinator *)
+Definition prepare_seq (in_gtx : bool) (xid : bytes) (ps : list (action * list field * reply)) : list pevent :=
+  flat_map (fun p => fst (prepare (fst (fst p)) in_gtx xid (snd (fst p)) (snd p))) ps.
+
+(* every try is immediately preceded by the registration of its own action *)
+Fixpoint paired (evs : list pevent) : bool :=
+  match evs with
+  | [] => true
+  | ERegister _ r _ _ :: rest =>
+      match rest with
+      | ETry a _ :: rest' => bytes_eqb r a && paired rest'
+      | _ => paired rest
+      end
+  | ETry _ _ :: _ => false
+  end.
+
+Definition is_register (e : pevent) : bool := match e with ERegister _ _ _ _ => true | _ => false end.
+Definition is_try (e : pevent) : bool := match e with ETry _ _ => true | _ => false end.
+Definition reply_ok (r : reply) : bool := match r with ROk _ => true | _ => false end.
+
 (* ---- phase two --------------------------------------------------------------------- *)
 Inductive appdata :=
 | AJson (j : jv)        (* bytes that parse as JSON *)
@@ -64,7 +85,9 @@ Inductive appdata :=
 
 Record p2req := mkQ {
   q_commit : bool; q_resource : bytes; q_xid : bytes; q_bid : Z; q_msgid : Z;
-  q_app : appdata; q_user_fails : bool }.
+  q_app : appdata;
+  q_user_fails : bool;    (* the user method returns a non-nil error *)
+  q_user_bool : bool }.   (* the bool it returns next to it: irrelevant for the status *)
 
 Inductive p2event :=
 | EInvoke (act : bytes) (commit : bool) (xid : bytes) (bid : Z) (resource : bytes) (ctx : list (bytes * goval))
